@@ -57,6 +57,55 @@ static double occa_parseDouble(const char *s) { return c14_fp_model(s); }
 static const char *c14_src_first; static long c14_src_count; static const char *c14_src_lit;
 static void verif_set_source(const char *first, long count) { c14_src_first = first; c14_src_count = count; c14_src_lit = 0; }
 static void verif_set_source_lit(const char *lit)           { c14_src_first = 0; c14_src_count = 0; c14_src_lit = lit; }
+
+/* ------------------------------------------------------------------ the recursive call primitive::load(++c) on the exponent
+ * primitive::load calls itself on the text after e/E and reads only the type tag of what comes back
+ * (`float_ = exp.type & isFloat`) and the cursor.  Contract of that call, for the exponent texts of a
+ * well-formed floating literal:
+ *   pre:   the text at the cursor is   sign? digit+ (f|F)?   followed by a character that ends the
+ *          token (c14_lit_ends_here: no letter, digit, period, ...), with at most C14_EXP_MAX characters;
+ *   post:  the cursor is advanced over exactly that text; the result's tag has the isFloat bit iff the
+ *          f/F is there; no error is raised; no conversion of the LITERAL's text is asked for.
+ * Group literal/exponent-contract proves this contract of the real text of load (entry h_exponent);
+ * the groups that reach an exponent use it in place of the call: a violated precondition fails there. */
+#ifndef C14_EXP_MAX
+#  define C14_EXP_MAX C14_LIT_MAX
+#endif
+typedef struct { _Bool ok; size_t len; _Bool f; } c14_exp_t;
+static c14_exp_t c14_exponent_spec(const char *s) {
+  c14_exp_t e; e.ok = 0; e.len = 0; e.f = 0;
+  size_t i = 0;
+  if (s[i] == '+' || s[i] == '-') ++i;
+  size_t d0 = i;
+  for (; i < C14_EXP_MAX && '0' <= s[i] && s[i] <= '9'; ++i) { }
+  if (i == d0) return e;
+  if (s[i] == 'f' || s[i] == 'F') { e.f = 1; ++i; }
+  if (i > C14_EXP_MAX) return e;
+  if (!c14_lit_ends_here(s[i - 1], s[i])) return e;
+  e.ok = 1; e.len = i;
+  return e;
+}
+
+static primitive primitive_load_exponent(const char **c_, const bool includeSign)
+#if defined(C14_LIT_NO_EXPONENT)
+{ /* integer, boolean and exponent texts contain no exponent: the call must not be reached */
+  __CPROVER_assert(0, "literal: no (further) exponent is parsed for this text (the recursive call is not reached)");
+  __CPROVER_assume(0);
+  return primitive_ctor_none();
+}
+#else
+{ /* replaced by its contract */
+  c14_exp_t e = c14_exponent_spec(*c_);
+  __CPROVER_assert(e.ok && includeSign, "literal: the recursive call on the exponent meets the precondition of its contract (sign? digits (f|F)?, then the end of the token)");
+  __CPROVER_assume(e.ok);
+  *c_ += e.len;
+  primitive r;                                             /* unconstrained but for the isFloat bit of the tag */
+  __CPROVER_assume(((r.type & primitiveType_isFloat) != 0) == e.f);
+  c14_str_first = 0; c14_str_count = -1;                   /* scratch state the inner call may have used */
+  c14_src_first = 0; c14_src_count = -1; c14_src_lit = 0;
+  return r;
+}
+#endif
 #endif /* C14_LITERAL_MODELS */
 
 
@@ -138,6 +187,32 @@ void h_literal(void) {
   __CPROVER_assert(c14_spec.kind != C14_LIT_INT,   "canary: an integer literal reaches the end of the harness");
   __CPROVER_assert(c14_spec.kind != C14_LIT_FLOAT, "canary: a floating literal reaches the end of the harness");
   __CPROVER_assert(c14_spec.kind != C14_LIT_BOOL,  "canary: a boolean literal reaches the end of the harness");
+#endif
+}
+
+/* ------------------------------------------------------------------ proof of the exponent contract on the real text of load */
+void h_exponent(void) {
+  for (size_t k = 0; k < C14_LIT_MAX + 1; ++k) c14_text[k] = nondet_char();
+  c14_text[C14_LIT_MAX + 1] = 0;
+  /* the exponent starts behind at least one digit and the e: not at the start of the buffer */
+  const char *const start = c14_text + 2;
+  c14_exp_t e = c14_exponent_spec(start);
+  if (!e.ok || 2 + e.len > C14_LIT_MAX) return;
+  for (size_t k = 0; k < C14_LIT_MAX + 1; ++k) if (k > 2 + e.len) c14_text[k] = 0;
+  const char *cursor = start;
+  c14_fp_value = nondet_double(); c14_fp_calls = 0; c14_fp_count = -1;
+  verif_raised = 0;
+
+  primitive r = primitive_load(&cursor, 1);
+
+#ifndef CANARY
+  __CPROVER_assert(!verif_raised, "exponent contract: no error is raised");
+  __CPROVER_assert(cursor == start + e.len, "exponent contract: the cursor is advanced over exactly sign? digits (f|F)?");
+  __CPROVER_assert(((r.type & primitiveType_isFloat) != 0) == e.f, "exponent contract: the result tag has the isFloat bit iff the exponent carries f/F");
+  __CPROVER_assert(c14_fp_calls == 0, "exponent contract: no conversion of the literal's own text is asked for");
+#else
+  __CPROVER_assert(!e.f, "canary: an exponent with f reaches the end of the harness");
+  __CPROVER_assert(e.f,  "canary: an exponent without f reaches the end of the harness");
 #endif
 }
 #endif /* C14_LITERAL_HARNESS */
